@@ -680,6 +680,7 @@ Proof.
     + simpl. auto.
     + unfold live_chunks. simpl. constructor; [|constructor].
       apply (chunk_ok_fresh fb' rstate0 0 W0). reflexivity.
+    + simpl. exact I.
     + exact W0.
     + simpl. constructor.
   - reflexivity.
@@ -813,9 +814,145 @@ Proof.
   simpl. split; assumption.
 Qed.
 
+(* ------------------------------------------------------------------ readable form of the invariant *)
+Theorem C11_structure : forall y, journal_wf y ->
+  let k := y_core y in
+  let D := logical y in
+  let o := ck_id (k_open k) in
+  (* (a) the files of the logical directory *)
+  ids D = k_removed k ++ map (fun c => ck_id (cl_chunk c)) (k_closed k) ++ [o] /\
+  StronglySorted N.lt (ids D) /\
+  (* (b) consecutive files abut *)
+  (forall pre a b post, ids D = pre ++ a :: b :: post ->
+     b = a + N.of_nat (length (file_bytes D a))) /\
+  (* (c) every live chunk file is a sequence of well-formed records, headed by a state
+     snapshot, and the chunk's offset table is that of these records *)
+  (forall c, In c (map cl_chunk (k_closed k) ++ [k_open k]) ->
+     exists rs, Forall wf_record rs /\ file_bytes D (ck_id c) = encs rs /\
+                ck_ends c = ends_from (ck_id c) (map rec_size rs) /\
+                exists st tl, rs = RState st :: tl) /\
+  (* the snapshot heading the successor of a closed chunk is that chunk's closing state *)
+  heads_ok (file_bytes D) (k_closed k) o /\
+  (* (d) after the queue is processed the worker's newest file is the open chunk *)
+  (exists older pl, y_files (worker_idle y) = older ++ [mkWF o pl]) /\
+  (* (f) index-map entries point at the encoding of their own Append record *)
+  (forall i ld, In (i, ld) (m_log (k_sm k)) ->
+     wf_pair (ld_id ld) /\ ld_chunk ld <= o /\
+     (In (ld_chunk ld) (ids D) ->
+      exists pre p post, wf_bytes p /\
+        file_bytes D (ld_chunk ld) = pre ++ enc_record (RAppend (ld_id ld) p) ++ post /\
+        ld_off ld = ld_chunk ld + N.of_nat (length pre) /\
+        ld_len ld = rec_size (RAppend (ld_id ld) p))).
+Proof.
+  intros y JW k D o. pose proof (jw_inv _ JW) as J. fold k D in J.
+  split; [apply (ji_ids _ _ _ J)|]. split; [apply (ji_sorted _ _ _ J)|].
+  split; [apply (abut_spec _ _ (ji_abut _ _ _ J))|].
+  split.
+  { pose proof (ji_chunks _ _ _ J) as HC. rewrite Forall_forall in HC. exact HC. }
+  split; [apply (ji_heads _ _ _ J)|].
+  split; [rewrite worker_idle_files; apply (jw_newest _ JW)|].
+  intros i ld I. pose proof (ji_log _ _ _ J) as HL. rewrite Forall_forall in HL.
+  apply (HL _ I).
+Qed.
+
+(* ------------------------------------------------------------------ rotation as an invariant *)
+(* after every caller operation the open chunk is below its limits, unless it holds
+   nothing but its head snapshot (limits so small that the head alone exceeds them) *)
+Definition nf_ok (k : core) : Prop :=
+  is_full (k_cfg k) (k_open k) = true -> ck_records (k_open k) = 1.
+
+Lemma nf_core_eqj k k' : nf_ok k -> core_eqj k k' -> nf_ok k'.
+Proof. intros H (E1 & E2 & _). unfold nf_ok. rewrite E1, E2. exact H. Qed.
+
+Lemma nf_append_and_apply k r k' w effs :
+  nf_ok k -> append_and_apply k r = Ret (k', w, effs) -> nf_ok k'.
+Proof.
+  intros Hk H.
+  apply append_and_apply_cases in H as [(Ek & _)|(sm1 & _ & _ & _ & Ht)]; [subst; exact Hk|].
+  eapply try_close_cases in Ht as [(F & Ek & _)|(_ & Ek & _)]; [| |reflexivity]; subst k'.
+  - intros F'. rewrite F in F'. discriminate.
+  - intros _. reflexivity.
+Qed.
+
+Lemma nf_do_append es : forall k acc effs0 k' w effs,
+  nf_ok k -> do_append k es acc effs0 = Ret (k', w, effs) -> nf_ok k'.
+Proof.
+  induction es as [|[id p] es IH]; intros k acc effs0 k' w effs Hk H; simpl in H.
+  - inversion H; subst. exact Hk.
+  - destruct (append_and_apply k (RAppend id p)) as [[[k1 w1] ef]|] eqn:Ea; [|discriminate].
+    pose proof (nf_append_and_apply _ _ _ _ _ Hk Ea) as H1.
+    destruct w1 as [off len|e].
+    + apply (IH _ _ _ _ _ _ H1 H).
+    + inversion H; subst. exact H1.
+Qed.
+
+Lemma nf_do_write k w k' res effs : nf_ok k -> do_write k w = Ret (k', res, effs) -> nf_ok k'.
+Proof.
+  intros Hk H. destruct w as [v|es|i|upto|id|u|st]; simpl in H.
+  - apply (nf_append_and_apply _ _ _ _ _ Hk H).
+  - destruct (wal_last_segment k) as [w0|]; [|discriminate]. apply (nf_do_append _ _ _ _ _ _ _ Hk H).
+  - destruct (N.eqb i (next_index (r_purged (m_rs (k_sm k))))).
+    { apply (nf_append_and_apply _ _ _ _ _ Hk H). }
+    destruct (N.eqb i 0); [inversion H; subst; exact Hk|].
+    destruct (lm_get_id k (i - 1)); [|inversion H; subst; exact Hk].
+    apply (nf_append_and_apply _ _ _ _ _ Hk H).
+  - destruct (N.ltb (lid_index upto) (next_index (r_purged (m_rs (k_sm k))))).
+    { destruct (wal_last_segment k); [|discriminate]. inversion H; subst. exact Hk. }
+    destruct (append_and_apply k (RPurge upto)) as [[[k1 w1] ef]|] eqn:Ea; [|discriminate].
+    pose proof (nf_append_and_apply _ _ _ _ _ Hk Ea) as H1.
+    destruct w1 as [off len|e].
+    + destruct (pop_obsolete upto (k_closed k1)) as [rm rest]. inversion H; subst. exact H1.
+    + inversion H; subst. exact H1.
+  - apply (nf_append_and_apply _ _ _ _ _ Hk H).
+  - apply (nf_append_and_apply _ _ _ _ _ Hk H).
+  - apply (nf_append_and_apply _ _ _ _ _ Hk H).
+Qed.
+
+Lemma nf_run_op y o y' res :
+  nf_ok (y_core y) -> op_c11 o = true -> run_op y o = (Some y', res) -> nf_ok (y_core y').
+Proof.
+  intros Hk Hc H. destruct o as [w|cb|from to| | | | | |cfg]; unfold run_op in H.
+  - destruct (do_write (y_core y) w) as [[[k r] effs]|] eqn:E; [|discriminate].
+    inversion H; subst. rewrite apply_effs_core. apply (nf_do_write _ _ _ _ _ Hk E).
+  - unfold do_flush in H. inversion H; subst. rewrite apply_effs_core. exact Hk.
+  - pose proof (do_read_core (y_core y) (y_disk y) from to) as Ec.
+    destruct (do_read (y_core y) (y_disk y) from to) as [k items]. inversion H; subst.
+    apply (nf_core_eqj _ _ Hk Ec).
+  - inversion H; subst. exact Hk.
+  - inversion H; subst. exact Hk.
+  - inversion H; subst. exact Hk.
+  - inversion H; subst. apply (nf_core_eqj _ _ Hk (worker_idle_core y)).
+  - inversion H; subst. apply (nf_core_eqj _ _ Hk (core_eqj_cache _ _)).
+  - discriminate.
+Qed.
+
+Lemma nf_run_ops ops : forall y res y',
+  nf_ok (y_core y) -> ops_c11 ops = true -> run_ops y ops = (res, Some y') -> nf_ok (y_core y').
+Proof.
+  induction ops as [|o ops IH]; intros y res y' Hk Hc H; simpl in H.
+  - inversion H; subst. assumption.
+  - simpl in Hc. apply andb_true_iff in Hc as [Hc1 Hc2].
+    destruct (run_op y o) as [[y1|] r1] eqn:E.
+    + destruct (run_ops y1 ops) as [rs fin] eqn:E2. inversion H; subst.
+      apply (IH y1 rs y'); try assumption. apply (nf_run_op y o y1 r1); assumption.
+    + inversion H.
+Qed.
+
+Theorem C11_rotation_invariant : forall cfg ops res y,
+  ops_c11 ops = true -> run_case cfg ops = (res, Some y) ->
+  is_full (k_cfg (y_core y)) (k_open (y_core y)) = true -> ck_records (k_open (y_core y)) = 1.
+Proof.
+  intros cfg ops res y Hc H. unfold run_case in H. rewrite open_dir_nil in H.
+  apply (nf_run_ops ops (sys0 cfg) res y); try assumption.
+  intros _. reflexivity.
+Qed.
+
 Print Assumptions C11_invariant.
 Print Assumptions C11_write_appends.
 Print Assumptions C11_on_disk_size.
 Print Assumptions C11_idle_disk_is_journal.
 Print Assumptions C11_disk_is_prefix.
 Print Assumptions C11_read_record_is_append.
+Print Assumptions C11_structure.
+Print Assumptions C11_rotation_invariant.
+Print Assumptions C11_write_preserves.
